@@ -98,8 +98,6 @@ partial def filterStrings : Filter → List String
     | _ => []
 end
 
-def sigMangle : String := "C37:template-literal-non-ascii-bytes-reencoded"
-def sigOverwrite : String := "C37:params-overwrite-resets-absent-keys"
 
 def handleTemplate : Handler := fun inp out => do
   let resource ← strField inp "resource"
@@ -185,11 +183,11 @@ def handleTemplate : Handler := fun inp out => do
       | .ok (some f) => gResolveErr == "" && gResolved == filterToJson f
       | .ok none => gResolveErr == "" && gResolved.isNull
       | .error _ => gResolveErr != ""
-    -- (2) parameters: natural merge (later object overrides the keys it gives)
+    -- (2) parameters: a later object overrides exactly the keys it gives
     let specTarget : Except String (InitialQuery ResourceQuery) :=
       match resolved, defaultParams resource dps, tp, qp with
       | .ok b, some d, .ok t, .ok q =>
-        (match overwriteSpec parseRFC3339 d [t, q] with
+        (match overwrite parseRFC3339 d [t, q] with
           | .error _ => .error "validation:params"
           | .ok p => .ok (templateParamsToQuery p b mps))
       | _, _, _, _ => .error "n/a"
@@ -202,7 +200,7 @@ def handleTemplate : Handler := fun inp out => do
       | .ok q => gRunErr == "" && normPS gCaptured == normPS (initialJson q volumes)
       | .error _ => true
     let prop := gPanic == "" && substOk && paramsOk
-    let sig := if !agree then "" else if !substOk then sigMangle else if !paramsOk then sigOverwrite else ""
+    let sig := ""
     let rtag := match resolved with | .ok _ => "resolved" | .error e => "resolve-err:" ++ e
     let ptag := match target with
       | .ok _ => "ran" | .error e => "run-err:" ++ e
